@@ -15,6 +15,7 @@ owner whose pointer will be followed when the number is reused.
 That these hold after EVERY build-then-delete history is decided by running the checker on the
 images of sampled histories (PARTIAL).
 -/
+import GoNfsd.Lemmas.Files
 import GoNfsd.Props.C04
 import GoNfsd.Lemmas.BlockMap
 import GoNfsd.Lemmas.ShrinkTree
@@ -404,5 +405,19 @@ theorem allocator_stream_is_fresh_and_distinct (a : Alloc) (k : Nat) (h0 : a.bit
   refine ⟨h1, ?_⟩
   unfold DistinctNZ
   exact List.Pairwise.imp (fun hne => Or.inr (Or.inr hne)) h2
+
+/-! ### at the level of shared disk blocks (model M7d `G`: any number of files on one disk) -/
+
+/-- Dropping the content of ONE file among many (SETATTR to 0, the removal of the last link; a
+    directory is a file of slots, `Props/C04.directory_blocks_refine_the_slot_list`) gives back
+    EVERY block it had: afterwards the file maps nothing, each of its former blocks belongs to
+    nobody, holds zeros, and the invariant — one owner per block across all files, unowned blocks
+    zero — holds again, so the allocator may hand the blocks to anybody. -/
+theorem removal_gives_back_every_block (g : GoNfsd.Model.FileData.G) (a : Nat) (h : GoNfsd.Model.FileData.GInv g) :
+    GoNfsd.Model.FileData.GInv (g.resize a 0) ∧
+    (∀ i, (g.resize a 0).maps a i = 0) ∧
+    ∀ i, g.maps a i ≠ 0 →
+      (∀ b j, (g.resize a 0).maps b j ≠ g.maps a i) ∧ ∀ o, (g.resize a 0).data (g.maps a i) o = 0 :=
+  ⟨(GoNfsd.Model.FileData.gresize_ok g a 0 h).1, GoNfsd.Model.FileData.gresize_zero_frees_everything g a h⟩
 
 end GoNfsd.Props.C05
